@@ -499,7 +499,7 @@ def judge(ctx, src, r, stream, hist, check_mm=True):
 def run(ctx):
     rng = ctx.rng
     div = int(os.environ.get("VERIF_C05_DIV", "1"))   # debugging aid: shrink every stream
-    nrand = ctx.scale(1200, 40000) // div
+    nrand = ctx.scale(1200, 12000) // div
     ntemp = max(1, ctx.scale(12, 500) // div)
     nmal = max(1, ctx.scale(4, 120) // div)
     progs = []     # (stream, src, features)
